@@ -14,7 +14,7 @@
      select_bind         Reconfigure._select_bind_location
      apply               Reconfigure.apply             (step by step, in the order of the source)
    Environment (validated by the correspondence run, not proved): Repository.fetch copies the
-   requested revisions verbatim ([reach]/[union]); Tags.merge_to keeps the destination's value on a
+   requested revisions verbatim ([fetched]/[union]); Tags.merge_to keeps the destination's value on a
    name clash ([merge_tags]); ControlDir.find_repository walks up and stops at an unshared
    repository ([find_repo], [place_revs]); destroy_*/create_* do what their names say. *)
 From Coq Require Import List Bool Arith String ZArith.
@@ -126,7 +126,7 @@ Definition place_repo_add (w : world) (l : loc) (o : obranch) (rs : list revid) 
   end.
 
 (* Repository.fetch(source, revision_id=tip): the ancestors of tip that the source holds *)
-Definition reach (g : dag) (src : list revid) (tip : option revid) : list revid :=
+Definition fetched (g : dag) (src : list revid) (tip : option revid) : list revid :=
   match tip with
   | None => []
   | Some t => filter (fun r => memb r src) (ancestors g [t])
@@ -315,7 +315,7 @@ Definition step_create_repository (p : plan) (w0 : world) (w : world) : res :=
   if p_create_repository p then
     let keep_local := is_some (local_of w0) && negb (p_destroy_branch p) in
     let src := if keep_local
-               then reach (w_g w) (orevs (find_repo w0))
+               then fetched (w_g w) (orevs (find_repo w0))
                           (match local_of w0 with Some b => b_tip b | None => None end)
                else [] in
     Ok (set_repo w (Some (mkRepo false true (union src []))))
@@ -325,10 +325,10 @@ Definition step_fetch_referenced (p : plan) (w0 : world) (w : world) : res :=
   if p_create_branch p then
     match refd_of w0 with
     | Some (l, o) =>
-        match place_revs w l o with
+        match place_revs w0 l o with      (* self.referenced_branch.repository was opened by __init__ *)
         | None => Fail "NoRepositoryPresent" w
         | Some src =>
-            match loc_repo_add w (reach (w_g w) src (o_tip o)) with
+            match loc_repo_add w (fetched (w_g w) src (o_tip o)) with
             | Some w' => Ok w'
             | None => Fail "AttributeError" w
             end
@@ -368,46 +368,54 @@ Definition step_destroy_repository_fetch (p : plan) (w0 : world) (nb : option lo
     else Ok w                                      (* nothing is fetched before the repository goes *)
   else Ok w.
 
-(* destroy_reference / destroy_branch / create_branch / create_reference *)
-Definition step_branches (p : plan) (w0 : world) (nb : option loc) (w : world) : res :=
-  let lri1 := if p_destroy_reference p
-              then match refd_of w0 with Some (_, o) => Some (o_tip o) | None => None end
-              else None in
-  let w1 := if p_destroy_reference p then set_branch w BNone else w in
-  let lri2 := if p_destroy_branch p
-              then match local_of w0 with Some b => Some (b_tip b) | None => None end
-              else lri1 in
-  let w2 := if p_destroy_branch p then
-              let w' := if p_create_reference p then
-                          match select_bind w0 nb, local_of w0 with
-                          | Some l, Some b =>
-                              match get_other w1 l with
-                              | Some o => set_other w1 l (mkOB (o_tip o) (merge_tags (b_tags b) (o_tags o)) (o_own o))
-                              | None => w1
-                              end
-                          | _, _ => w1
-                          end
-                        else w1 in
-              set_branch w' BNone
-            else w1 in
-  let r3 := if p_create_branch p then
-              match find_repo w2 with
-              | None => Fail "NoRepositoryPresent" w2
-              | Some _ =>
-                  let tip := match lri2 with Some t => t | None => None end in
-                  let tags := if p_destroy_reference p
-                              then match refd_of w0 with Some (_, o) => merge_tags (o_tags o) [] | None => [] end
-                              else [] in
-                  Ok (set_branch w2 (BLocal (mkLB tip tags None None None)))
-              end
-            else Ok w2 in
-  rbind r3 (fun w3 =>
-    if p_create_reference p then
-      match select_bind w0 nb with
-      | Some l => Ok (set_branch w3 (BRef l))
-      | None => Fail "NoBindLocation" w3
-      end
-    else Ok w3).
+(* last_revision_info as apply() computes it before destroying anything: Some tip, or None (never assigned) *)
+Definition lri_of (p : plan) (w0 : world) : option (option revid) :=
+  if p_destroy_branch p then match local_of w0 with Some b => Some (b_tip b) | None => None end
+  else if p_destroy_reference p then match refd_of w0 with Some (_, o) => Some (o_tip o) | None => None end
+  else None.
+
+(* if self._destroy_reference: ...; self.controldir.destroy_branch() *)
+Definition step_destroy_reference (p : plan) (w : world) : res :=
+  if p_destroy_reference p then Ok (set_branch w BNone) else Ok w.
+
+(* if self._destroy_branch: [self.local_branch.tags.merge_to(reference_branch.tags)]; destroy_branch() *)
+Definition step_destroy_branch (p : plan) (w0 : world) (nb : option loc) (w : world) : res :=
+  if p_destroy_branch p then
+    let w' := if p_create_reference p then
+                match select_bind w0 nb, local_of w0 with
+                | Some l, Some b =>
+                    match get_other w l with
+                    | Some o => set_other w l (mkOB (o_tip o) (merge_tags (b_tags b) (o_tags o)) (o_own o))
+                    | None => w
+                    end
+                | _, _ => w
+                end
+              else w in
+    Ok (set_branch w' BNone)
+  else Ok w.
+
+(* if self._create_branch: create_branch(); set_last_revision_info; [referenced tags merge_to the new branch] *)
+Definition step_create_branch (p : plan) (w0 : world) (w : world) : res :=
+  if p_create_branch p then
+    match find_repo w with
+    | None => Fail "NoRepositoryPresent" w
+    | Some _ =>
+        let tip := match lri_of p w0 with Some t => t | None => None end in
+        let tags := if p_destroy_reference p
+                    then match refd_of w0 with Some (_, o) => merge_tags (o_tags o) [] | None => [] end
+                    else [] in
+        Ok (set_branch w (BLocal (mkLB tip tags None None None)))
+    end
+  else Ok w.
+
+(* if self._create_reference: self.controldir.set_branch_reference(reference_branch) *)
+Definition step_create_reference (p : plan) (w0 : world) (nb : option loc) (w : world) : res :=
+  if p_create_reference p then
+    match select_bind w0 nb with
+    | Some l => Ok (set_branch w (BRef l))
+    | None => Fail "NoBindLocation" w
+    end
+  else Ok w.
 
 Definition step_trees (p : plan) (w : world) : res :=
   let w1 := if p_destroy_tree p then set_tree w None else w in
@@ -460,21 +468,25 @@ Definition step_repository_trees (p : plan) (w : world) : res :=
       end
   end.
 
+Fixpoint run_steps (ss : list (world -> res)) (w : world) : res :=
+  match ss with
+  | [] => Ok w
+  | s :: ss' => rbind (s w) (run_steps ss')
+  end.
+
+(* the body of Reconfigure.apply after _check, in source order *)
+Definition steps (nb : option loc) (p : plan) (w0 : world) : list (world -> res) :=
+  [step_create_repository p w0; step_fetch_referenced p w0; step_open_reference p w0 nb;
+   step_destroy_repository_fetch p w0 nb;
+   step_destroy_reference p; step_destroy_branch p w0 nb; step_create_branch p w0; step_create_reference p w0 nb;
+   step_trees p;
+   step_unbind p; step_bind p w0 nb; step_destroy_repository p; step_repository_trees p].
+
 (* Reconfigure.apply(force) with new_bound_location = nb *)
 Definition apply (force : bool) (nb : option loc) (p : plan) (w0 : world) : res :=
   match (if force then None else check p w0 nb) with
   | Some e => Fail e w0
-  | None =>
-      rbind (step_create_repository p w0 w0) (fun w =>
-      rbind (step_fetch_referenced p w0 w) (fun w =>
-      rbind (step_open_reference p w0 nb w) (fun w =>
-      rbind (step_destroy_repository_fetch p w0 nb w) (fun w =>
-      rbind (step_branches p w0 nb w) (fun w =>
-      rbind (step_trees p w) (fun w =>
-      rbind (step_unbind p w) (fun w =>
-      rbind (step_bind p w0 nb w) (fun w =>
-      rbind (step_destroy_repository p w) (fun w =>
-      step_repository_trees p w)))))))))
+  | None => run_steps (steps nb p w0) w0
   end.
 
 (* the whole operation: factory, then apply *)
